@@ -201,8 +201,8 @@ pub fn finite_sub(tier: Tier) -> Sub {
   sub.rule = "case = one real-time execution per (pair x tcp/ipc x LINGER x backlog at close x reading/stalled peer x close+term / term only) cell; non-trivial = something was queued at close; oracle: close()+term() return within LINGER + 3 s; with a reading peer and LINGER = 10 s everything accepted arrives; what arrives is an intact in-order prefix of what was accepted".into();
   let list = cells(tier);
   sub.bounds = json!({"cells": list.len(), "linger_ms": tier.pick(vec![200, 10_000], vec![1, 50, 200, 1000, 10_000]), "backlogs": ["0", "50 x 4 KiB", "2000 x 4 KiB"]});
-  sub.notes.push("E4 cells are real-clock executions: the matrix is enumerated completely, the schedules inside a cell are not".into());
-  par::enumerate(&mut sub, list.len(), |i| {
+  sub.notes.push("a violation in a real-clock cell is reported only if it shows again when the cell is executed a second time; E4 cells are real-clock executions: the matrix is enumerated completely, the schedules inside a cell are not".into());
+  par::enumerate(&mut sub, list.len(), |i| par::confirmed(|| {
     let c = list[i];
     let rt = tokio::runtime::Builder::new_multi_thread().worker_threads(2).enable_all().build().expect("runtime");
     let r = rt.block_on(async move { tokio::time::timeout(Duration::from_secs(90), run_cell(c)).await });
@@ -239,7 +239,7 @@ pub fn finite_sub(tier: Tier) -> Sub {
       }
     }
     case
-  });
+  }));
   sub
 }
 
